@@ -74,10 +74,49 @@ pub struct Obs {
     jitter: u32,
 }
 
+/// Rung by every instrumentation point so that the controller can wait without spinning.
+#[derive(Default)]
+pub struct Bell {
+    m: Mutex<u64>,
+    cv: Condvar,
+}
+
+impl Bell {
+    fn epoch(&self) -> u64 {
+        *self.m.lock().unwrap()
+    }
+    /// Waits until the epoch differs from `seen` or `max` has passed.
+    fn wait_change(&self, seen: u64, max: StdDuration) {
+        let g = self.m.lock().unwrap();
+        if *g != seen {
+            return;
+        }
+        let _ = self.cv.wait_timeout(g, max).unwrap();
+    }
+}
+
 #[derive(Default)]
 pub struct Ctl {
     m: Mutex<Obs>,
     cv: Condvar,
+    bell: Arc<Bell>,
+}
+
+impl Ctl {
+    fn with_bell(bell: Arc<Bell>) -> Ctl {
+        Ctl {
+            m: Mutex::new(Obs::default()),
+            cv: Condvar::new(),
+            bell,
+        }
+    }
+    /// wake whoever waits for this resource's instrumentation state (thread side)
+    fn ring(&self) {
+        self.cv.notify_all();
+        let mut e = self.bell.m.lock().unwrap();
+        *e += 1;
+        self.bell.cv.notify_all();
+    }
 }
 
 /// The clock handed to `ResourceRunner`: the real `ManualClock`, plus a rendezvous in `now()`
@@ -93,7 +132,7 @@ impl Clock for StepClock {
     fn now(&self) -> Duration {
         let mut g = self.ctl.m.lock().unwrap();
         g.at_now = true;
-        self.ctl.cv.notify_all();
+        self.ctl.ring();
         while g.tokens == 0 && !g.free_run {
             g = self.ctl.cv.wait(g).unwrap();
         }
@@ -109,12 +148,12 @@ impl Clock for StepClock {
         {
             let mut g = self.ctl.m.lock().unwrap();
             g.in_sleep = Some(deadline.as_nanos());
-            self.ctl.cv.notify_all();
+            self.ctl.ring();
         }
         self.inner.sleep_until(deadline);
         let mut g = self.ctl.m.lock().unwrap();
         g.in_sleep = None;
-        self.ctl.cv.notify_all();
+        self.ctl.ring();
     }
 
     fn wake(&self) {
@@ -140,7 +179,7 @@ impl IoDriver for Probe {
         let mut g = self.ctl.m.lock().unwrap();
         if g.hold {
             g.in_hold = true;
-            self.ctl.cv.notify_all();
+            self.ctl.ring();
             while g.hold {
                 g = self.ctl.cv.wait(g).unwrap();
             }
@@ -171,7 +210,7 @@ impl IoDriver for Probe {
             input,
             out: None,
         });
-        self.ctl.cv.notify_all();
+        self.ctl.ring();
         Ok(())
     }
 
@@ -190,7 +229,7 @@ impl IoDriver for Probe {
                 last.out = Some(vals);
             }
         }
-        self.ctl.cv.notify_all();
+        self.ctl.ring();
         Ok(())
     }
 }
@@ -199,7 +238,7 @@ impl Drop for Probe {
     fn drop(&mut self) {
         let mut g = self.ctl.m.lock().unwrap();
         g.dropped = true;
-        self.ctl.cv.notify_all();
+        self.ctl.ring();
     }
 }
 
@@ -390,6 +429,7 @@ pub struct World {
     shared: SharedGlobals,
     gate: Arc<StartGate>,
     gate_open: bool,
+    bell: Arc<Bell>,
     miss: StdDuration,
     hang: StdDuration,
     pub saw_l: bool,
@@ -427,10 +467,11 @@ impl World {
             })
             .collect();
         let gate = Arc::new(StartGate::new());
+        let bell = Arc::new(Bell::default());
         let mut runtimes = Vec::new();
         let mut ctls = Vec::new();
         for rc in &cfg.res {
-            let ctl = Arc::new(Ctl::default());
+            let ctl = Arc::new(Ctl::with_bell(bell.clone()));
             if free {
                 let mut g = ctl.m.lock().unwrap();
                 g.free_run = true;
@@ -494,6 +535,7 @@ impl World {
             shared,
             gate,
             gate_open: false,
+            bell,
             miss: StdDuration::from_millis(miss_ms),
             hang: StdDuration::from_secs(hang_s),
             saw_l: false,
@@ -530,8 +572,8 @@ impl World {
     /// Wait until every thread is parked, blocked or gone.
     pub fn settle(&mut self, free: bool) -> Vec<Pos> {
         let start = Instant::now();
-        let mut spins = 0u32;
         loop {
+            let epoch = self.bell.epoch();
             let n = self.res.len();
             let held: Vec<bool> = (0..n)
                 .map(|r| self.res[r].ctl.m.lock().unwrap().in_hold)
@@ -586,12 +628,9 @@ impl World {
                     .map(|p| if p == Pos::Flight { Pos::Hang } else { p })
                     .collect();
             }
-            spins += 1;
-            if spins < 200 {
-                std::thread::yield_now();
-            } else {
-                std::thread::sleep(StdDuration::from_micros(50));
-            }
+            // sleep until some instrumentation point is passed (or 1 ms: the gate, the clock
+            // bookkeeping and the `miss` window are not signalled)
+            self.bell.wait_change(epoch, StdDuration::from_millis(1));
         }
     }
 
@@ -1061,7 +1100,7 @@ pub fn run_scripted(n: u64, rng: &mut Rng, args: &Args, stamp: Arc<AtomicU64>, o
         &cfg,
         stamp,
         args.extra_usize("miss_ms", 12) as u64,
-        args.extra_usize("hang_s", 10) as u64,
+        args.extra_usize("hang_s", 20) as u64,
         false,
     )?;
     let mut pending: VecDeque<Op> = VecDeque::new();
@@ -1111,15 +1150,22 @@ pub fn run_scripted(n: u64, rng: &mut Rng, args: &Args, stamp: Arc<AtomicU64>, o
         let st = w.status(&ret, &pos, false);
         out.line(format!("impl {st}"));
     }
-    out.line("join");
-    out.count("op_join");
-    w.release_everything();
-    pos = w.settle(true);
-    let st = w.status("-", &pos, true);
-    if st.contains("faulted") {
-        fault_seen = true;
+    if w.hung {
+        // the mismatch is on record; clean up without further comparison
+        out.line("abort");
+        w.release_everything();
+        let _ = w.settle(true);
+    } else {
+        out.line("join");
+        out.count("op_join");
+        w.release_everything();
+        pos = w.settle(true);
+        let st = w.status("-", &pos, true);
+        if st.contains("faulted") {
+            fault_seen = true;
+        }
+        out.line(format!("impl {st}"));
     }
-    out.line(format!("impl {st}"));
     let total_cycles: u64 = w.res.iter().map(|x| x.ctl.m.lock().unwrap().writes).sum();
     let active = w.res.iter().filter(|x| x.ctl.m.lock().unwrap().writes > 0).count();
     if w.saw_l {
@@ -1271,7 +1317,7 @@ pub fn run_stress(n: u64, rng: &mut Rng, args: &Args, stamp: Arc<AtomicU64>, out
         r.interval = *rng.pick(&[0i64, MS, MS, 10 * MS]);
     }
     write_cfg(n, &cfg, out);
-    let hang_s = args.extra_usize("hang_s", 10) as u64;
+    let hang_s = args.extra_usize("hang_s", 20) as u64;
     let mut w = World::build(&cfg, stamp.clone(), 0, hang_s, true)?;
     let nres = cfg.res.len();
     let cap = args.extra_usize("stress_attempts", 300) as u64;
